@@ -173,7 +173,6 @@ type trcSpec struct {
 	desc      string
 	certs     []certSpec
 	sigs      []sigSpec
-	extraSigs bool // carries signatures nobody asked for (not judged)
 
 	raw     []byte // signed TRC, DER
 	pld     []byte // payload, DER
